@@ -624,6 +624,9 @@ def binding_rules(ctx):
         empty = (('tuple', ()), ('list', ()))
         ok = args == (('splice', margs),) or (
             args == () and margs in p.state.falsy) or (
+                # *() on the path where there are no arguments
+                len(args) == 1 and kind(args[0]) == 'splice' and
+                args[0][1] in empty and margs in p.state.falsy) or (
                 # *(args or ()): nothing when there are no arguments
                 len(args) == 1 and kind(args[0]) == 'splice' and
                 kind(args[0][1]) == 'boolop' and args[0][1][1] == 'or' and
